@@ -16,6 +16,7 @@ import (
 	"github.com/pgavlin/dawn/verif/cosched"
 	"github.com/pgavlin/dawn/verif/ev"
 	"github.com/pgavlin/dawn/verif/rungraph"
+	"go.starlark.net/starlark"
 	"pgregory.net/rapid"
 )
 
@@ -29,7 +30,9 @@ func TestMain(m *testing.M) {
 			"module loading (or a delay table for free-running loads). The real dawn.Load runs on generated files. Oracle: Load returns (no confirmed "+
 			"deadlock, no livelock); ModuleLoading is reported at most once per module; acyclic graph => no error and exactly the expected targets and "+
 			"flags; cyclic graph reachable from a BUILD file => Load fails and the error names a cyclic dependency. Non-trivial = a loader arrived at a "+
-			"module that was registered but not yet loaded, or the graph has a cycle of length >= 3. Distinct by case JSON.",
+			"module that was registered but not yet loaded, or the graph has a cycle of length >= 3. Additionally a catalogue of five small graphs (cross-package "+
+			"2- and 3-rings, shared helpers, acyclic controls) is loaded thousands of times free-running with the package loaders aligned by a barrier builtin "+
+			"(and a generated skew), to reach races in windows without a scheduling point; deadlocks are confirmed from stack dumps. Distinct by case JSON.",
 		"Starlark execution between two load statements is atomic under the cooperative scheduler",
 	)
 	ev.Main(m, run)
@@ -332,6 +335,149 @@ func gen(t *rapid.T) Case {
 	}
 	c.Pol = rungraph.GenPolicy(t, 3)
 	return c
+}
+
+// ---- aligned free-running loads ---------------------------------------------------------------
+//
+// Races in windows that contain no scheduling point (e.g. "look for a cycle, then record my wait
+// edge") only show when the package loaders really run in parallel and arrive together. A barrier
+// builtin called by every BUILD file right before its first load() aligns the loader goroutines to
+// within a few hundred nanoseconds; the load then runs free. The cosched handler is installed in
+// jitter mode only to track goroutines and to confirm deadlocks from stack dumps.
+
+type AlignedCase struct {
+	Graph int `json:"graph"` // index into alignedGraphs
+	Iter  int `json:"iter"`
+	Spin  int `json:"spin"` // extra spin iterations for package 0 after the barrier (skews arrival)
+}
+
+var alignedGraphs = []Case{
+	// two packages whose helpers load each other: //:BUILD -> h0 -> h1 -> h0, //p1:BUILD -> h1
+	{Pkgs: [][]int{{0}, {1}}, Helpers: [][]int{{1}, {0}}},
+	// three packages entering a 3-ring at different points
+	{Pkgs: [][]int{{0}, {1}, {2}}, Helpers: [][]int{{1}, {2}, {0}}},
+	// two packages, ring of two plus a shared acyclic helper
+	{Pkgs: [][]int{{0, 2}, {1, 2}}, Helpers: [][]int{{1}, {0}, {}}},
+	// acyclic controls: shared chain entered at two points, diamond
+	{Pkgs: [][]int{{0}, {1}}, Helpers: [][]int{{1}, {2}, {}}},
+	{Pkgs: [][]int{{0, 1}, {1, 0}, {2}}, Helpers: [][]int{{2}, {2}, {}}},
+}
+
+type barrier struct {
+	mu      sync.Mutex
+	n, want int
+	spin    int
+}
+
+func (b *barrier) wait(pkg int) {
+	b.mu.Lock()
+	b.n++
+	b.mu.Unlock()
+	deadline := time.Now().Add(2 * time.Millisecond)
+	for {
+		b.mu.Lock()
+		ok := b.n >= b.want
+		b.mu.Unlock()
+		if ok || time.Now().After(deadline) {
+			break
+		}
+	}
+	if pkg == 0 {
+		for i := 0; i < b.spin; i++ {
+			_ = i
+		}
+	}
+}
+
+func execAligned(ac AlignedCase) (v ev.Verdict) {
+	c := alignedGraphs[ac.Graph%len(alignedGraphs)]
+	c.Flags = make([]bool, len(c.Pkgs))
+	dir, err := os.MkdirTemp("", "c06a-")
+	if err != nil {
+		return ev.Verdict{Skip: "mkdtemp"}
+	}
+	defer os.RemoveAll(dir)
+	c.write(dir)
+	// prepend the barrier call to every BUILD file
+	for i := range c.Pkgs {
+		p := filepath.Join(dir, filepath.FromSlash(pkgPaths[i][2:]), "BUILD.dawn")
+		data, _ := os.ReadFile(p)
+		os.WriteFile(p, append([]byte(fmt.Sprintf("vb_wait(%d)\n", i)), data...), 0o644)
+	}
+	// ... and to every helper that loads another helper, right before its load statements: the
+	// helpers of a ring are then executed by different loader goroutines that reach their
+	// (mutual) load at the same moment
+	nb := 0
+	for i, loads := range c.Helpers {
+		if len(loads) == 0 {
+			continue
+		}
+		nb++
+		p := filepath.Join(dir, "lib", fmt.Sprintf("h%d.dawn", i))
+		data, _ := os.ReadFile(p)
+		os.WriteFile(p, append([]byte(fmt.Sprintf("vh_wait(%d)\n", i)), data...), 0o644)
+	}
+	b := &barrier{want: len(c.Pkgs), spin: ac.Spin}
+	hb := &barrier{want: nb, spin: ac.Spin}
+	hbuiltin := starlark.NewBuiltin("vh_wait", func(_ *starlark.Thread, _ *starlark.Builtin, args starlark.Tuple, _ []starlark.Tuple) (starlark.Value, error) {
+		n, _ := starlark.AsInt32(args[0])
+		hb.wait(n)
+		return starlark.None, nil
+	})
+	builtin := starlark.NewBuiltin("vb_wait", func(_ *starlark.Thread, _ *starlark.Builtin, args starlark.Tuple, _ []starlark.Tuple) (starlark.Value, error) {
+		n, _ := starlark.AsInt32(args[0])
+		b.wait(n)
+		return starlark.None, nil
+	})
+	evs := &events{loading: map[string]int{}}
+	var loadErr error
+	done := false
+	s := cosched.New(cosched.Policy{Mode: "jitter"})
+	s.Install()
+	s.Go("load", func() {
+		_, loadErr = dawn.Load(dir, &dawn.LoadOptions{Events: evs, Builtins: starlark.StringDict{"vb_wait": builtin, "vh_wait": hbuiltin}})
+		done = true
+	})
+	res := s.Wait(20 * time.Second)
+	cosched.Uninstall()
+	cyclic, _ := c.cycle()
+	v.Classes = append(v.Classes, fmt.Sprintf("aligned-graph:%d", ac.Graph%len(alignedGraphs)))
+	v.NonTrivial = true
+	if res.TimedOut {
+		return ev.Verdict{Skip: "watchdog-inconclusive"}
+	}
+	if res.Deadlock {
+		return ev.Failf("deadlock", "Load hangs with aligned package loaders (cyclic=%v): %s", cyclic, res.Report)
+	}
+	if !done {
+		return ev.Failf("load-did-not-return", "all goroutines ended but Load did not return")
+	}
+	evs.mu.Lock()
+	defer evs.mu.Unlock()
+	for l, n := range evs.loading {
+		if n > 1 {
+			return ev.Failf("module-loaded-twice", "module %s was executed %d times", l, n)
+		}
+	}
+	if cyclic && (loadErr == nil || !strings.Contains(loadErr.Error(), "cyclic dependency")) {
+		return ev.Failf("cycle-not-reported", "cyclic load graph, aligned loaders: Load returned %v", loadErr)
+	}
+	if !cyclic && loadErr != nil {
+		return ev.Failf("acyclic-load-failed", "acyclic load graph, aligned loaders: Load failed: %v", loadErr)
+	}
+	return v
+}
+
+func TestC06Aligned(t *testing.T) {
+	iters := run.N(1500, 20000)
+	i := -1
+	ev.Enumerate(run, t, "aligned", func() (AlignedCase, bool) {
+		i++
+		if i >= iters {
+			return AlignedCase{}, false
+		}
+		return AlignedCase{Graph: i % len(alignedGraphs), Iter: i/len(alignedGraphs) + 100000*run.Shard, Spin: (i / len(alignedGraphs) % 7) * 40}, true
+	}, execAligned)
 }
 
 func TestC06(t *testing.T) {
